@@ -46,6 +46,7 @@ var rsa4096 KeyPair   // a 4096-bit key
 var rsa1Sig KeyPair   // rsa1's key under a certificate with keyUsage digitalSignature (+contentCommitment) only
 var rsa1CA KeyPair    // rsa1's key under a self-signed CA:TRUE certificate
 var rsaOld2 KeyPair   // a second key whose certificate lapsed in 1999
+var rsa1024 KeyPair   // a 1024-bit key (the shortest crypto/rsa works with)
 
 func fixturesDir() string {
 	if d := os.Getenv("VERIF_FIXTURES"); d != "" {
@@ -89,6 +90,7 @@ func loadFixtures() {
 	rsaOld = loadKey("rsaold")
 	rsaSig, rsaSKI, rsaSKIMal, rsa4096 = loadKey("rsasig"), loadKey("rsaski"), loadKey("rsaskimal"), loadKey("rsa4096")
 	rsa1Sig, rsa1CA, rsaOld2 = loadKey("rsa1sig"), loadKey("rsa1ca"), loadKey("rsaold2")
+	rsa1024 = loadKey("rsa1024")
 }
 
 // passVerifier is an application-supplied saml.SignatureVerifier that does what the library would do itself.
